@@ -19,11 +19,12 @@ Pending the shared store model CV.Store (next round) — full-strength statement
       replay (restore (snapshot (replay init (log.take k)).state)) (log.drop k)
     = replay (replay init (log.take k)).state (log.drop k)              -- same results, same final state
 
-  Both are FALSE for the code as it is (the harness exhibits 13 families of witnesses on the pinned tree:
-  node Locality, usage rows, kind-service-names / mesh-topology / gateway-services rebuilt with other
-  indexes or other rows, the peering index, …); `cut_commutes_exact` / `cut_commutes_obs` below are the
-  parts that do not depend on the store model, and `restore_snapshot_counterexample` is the one deviation
-  that falls inside the stand-alone instance.
+  Both are FALSE for the code as it is (the harness exhibits families of witnesses on the pinned tree:
+  usage rows, kind-service-names / mesh-topology / gateway-services rebuilt with other indexes or other
+  rows, …); `cut_commutes_exact` / `cut_commutes_obs` below are the parts that do not depend on the store
+  model. The one deviation that fell inside the stand-alone instance (`Restore.Peering` overwriting the
+  restored index row, finding snap:index:peering) has been repaired in /repo; the pre-repair restorer is
+  kept as `restorerBeforeFix` with its counterexample (`peering_overwrite_counterexample`).
 -/
 import CV.Proofs.Snap
 namespace CV.Snap
@@ -161,8 +162,8 @@ def restorerEffect : List (String × IdxEffect) :=
     ("restoreSystemMetadata", .maxMerge),
     ("restoreServiceVirtualIP", .maxMerge),     -- updateVirtualIPMaxIndexes
     ("restoreFreeVirtualIP", .none),
-    ("restorePeering", .overwrite),             -- updatePeeringTableIndexes: FINDING snap:index:peering
-    ("restorePeeringTrustBundle", .overwrite),  -- updatePeeringTrustBundlesTableIndexes: FINDING snap:index:peering-trust-bundles
+    ("restorePeering", .maxMerge),              -- indexUpdateMaxTxn (was .overwrite via updatePeeringTableIndexes: repaired finding snap:index:peering)
+    ("restorePeeringTrustBundle", .maxMerge),   -- indexUpdateMaxTxn (was .overwrite: repaired finding snap:index:peering-trust-bundles)
     ("restorePeeringSecrets", .none) ]
 
 /-- Every registered restorer has a reviewed index effect (a new restorer must be reviewed). -/
@@ -172,21 +173,30 @@ def effectOf (f : String) : Option IdxEffect := (restorerEffect.find? (·.1 = f)
 
 def pos (p : String) : Nat := persistOrder.idxOf p
 
-/-- `persistIndex` comes after every persister whose records go to a restorer that computes index rows
-    (max-merge or rebuild): whatever those restorers wrote is overridden by the verbatim rows —
-    "IndexRestore moved before a restorer that max-merges" breaks this. -/
-theorem index_after_computing_restorers :
+/-- No restorer that rebuilds index rows through the write path, or plainly overwrites one, runs after
+    IndexRestore: its persister precedes `persistIndex`, so whatever it computed is overridden by the
+    verbatim rows — "IndexRestore moved before such a restorer" breaks this, and so did `Restore.Peering`
+    before its repair (effect `.overwrite`, persisted after the index). -/
+theorem no_rebuild_or_overwrite_after_index :
     ∀ w ∈ persisterWrites, ∀ r ∈ restorers, r.1 = w.2 →
-      (effectOf r.2 = some .maxMerge ∨ effectOf r.2 = some .rebuild) → pos w.1 < pos "persistIndex" := by
+      (effectOf r.2 = some .rebuild ∨ effectOf r.2 = some .overwrite) → pos w.1 < pos "persistIndex" := by
   decide
 
-/-- The persisters after the index table are exactly the audited four; their restorers' index effects are:
-    peerings and trust bundles OVERWRITE the restored index row (not max-merge: finding), secrets write no
-    index row, resources live in the separate storage backend (internal/storage/inmem, own restore). -/
+/-- Max-merging restorers either run before IndexRestore (then the verbatim row wins) or belong to the two
+    audited late persisters, where max-merge on top of the verbatim row is a no-op as long as the table
+    index dominates the rows' ModifyIndex (`LateBounded` below; modelled and proved for the instance). -/
+theorem maxmerge_before_index_or_audited :
+    ∀ w ∈ persisterWrites, ∀ r ∈ restorers, r.1 = w.2 → effectOf r.2 = some .maxMerge →
+      pos w.1 < pos "persistIndex" ∨ w.1 ∈ ["persistPeerings", "persistPeeringTrustBundles"] := by
+  decide
+
+/-- The persisters after the index table are exactly the audited four: peerings and trust bundles
+    max-merge, secrets write no index row, resources live in the separate storage backend
+    (internal/storage/inmem, own restore). -/
 theorem late_persisters_audited :
     persistOrder.drop (pos "persistIndex" + 1) =
       ["persistPeerings", "persistPeeringTrustBundles", "persistPeeringSecrets", "persistResources"] ∧
-    effectOf "restorePeering" = some .overwrite ∧ effectOf "restorePeeringTrustBundle" = some .overwrite ∧
+    effectOf "restorePeering" = some .maxMerge ∧ effectOf "restorePeeringTrustBundle" = some .maxMerge ∧
     effectOf "restorePeeringSecrets" = some .none := by
   decide
 
@@ -195,13 +205,14 @@ theorem instance_persisters_in_order : persisterNames.Sublist persistOrder := by
 
 /-! ## B. the stand-alone instance -/
 
-/-- rows restored after the index table agree with it: the index row of the table carries the
-    ModifyIndex of the LAST row in id order (what `Restore.Peering` leaves behind) -/
-def LateAgrees (key : Bytes) (late : List Late) (idx : List IdxRow) : Prop :=
-  ∀ p, late.getLast? = some p → (⟨key, p.modify⟩ : IdxRow) ∈ idx
+/-- rows restored after the index table are dominated by it: the table's index row exists and is at least
+    the ModifyIndex of every row (every write to the table sets the table index to its own, larger, index) -/
+def LateBounded (key : Bytes) (late : List Late) (idx : List IdxRow) : Prop :=
+  late ≠ [] → ∃ r ∈ idx, idxKey r = lc key ∧ ∀ p ∈ late, p.modify ≤ r.value
 
 /-- Well-formed states of the instance: tables in id-index order (unique keys), session_checks is the
-    derived table, and the index table has a row for every non-empty modelled table. -/
+    derived table, the index table has a row for every non-empty modelled table, and dominates the rows
+    of the tables restored after it. -/
 structure WF (s : State) : Prop where
   idx   : Sorted idxKey s.index
   kvs   : Sorted kvKey s.kvs
@@ -213,6 +224,8 @@ structure WF (s : State) : Prop where
   hasS  : s.sessions ≠ [] → ∃ r ∈ s.index, idxKey r = lc kSessions
   hasK  : s.kvs ≠ [] → ∃ r ∈ s.index, idxKey r = lc kKvs
   hasT  : s.tombs ≠ [] → ∃ r ∈ s.index, idxKey r = lc kTombstones
+  domP  : LateBounded kPeering s.peerings s.index
+  domB  : LateBounded kBundles s.bundles s.index
 
 /-- every index row computed by the restorers that run before IndexRestore is keyed by a table that has a
     verbatim row in the snapshot -/
@@ -230,41 +243,70 @@ theorem early_index_covered (s : State) (h : WF s) :
     · obtain ⟨r, hr, e⟩ := h.hasK hne; exact ⟨r, hr, hk.trans e.symm⟩
   · obtain ⟨r, hr, e⟩ := h.hasT hne; exact ⟨r, hr, hk.trans e.symm⟩
 
-/-- **Round trip of the instance** (partial: the two `LateAgrees` hypotheses are the excluded case).
-    For every well-formed state whose peering / trust-bundle index rows agree with the last row of those
-    tables, restoring the snapshot gives back exactly the same state: same rows, same create/modify
-    indexes, same index table. Unbounded: any number of rows, any keys, any indexes. -/
-theorem restore_snapshot_partial (s : State) (h : WF s)
-    (hp : LateAgrees kPeering s.peerings s.index) (hb : LateAgrees kBundles s.bundles s.index) :
-    restore (snapshot s) = s := by
+theorem late_noop {key : Bytes} {late : List Late} {idx : List IdxRow} (hs : Sorted idxKey idx)
+    (h : LateBounded key late idx) : late.foldl (fun a p => maxMerge key p.modify a) idx = idx := by
+  cases late with
+  | nil => rfl
+  | cons x xs =>
+    obtain ⟨r, hr, hk, hv⟩ := h (by simp)
+    exact foldl_maxMerge_noop key _ _ hs hr hk hv
+
+/-- **Round trip of the instance.** For every well-formed state, restoring the snapshot gives back exactly
+    the same state: same rows, same create/modify indexes, same index table, same derived session_checks.
+    Unbounded: any number of rows, any keys, any indexes. -/
+theorem restore_snapshot_instance (s : State) (h : WF s) : restore (snapshot s) = s := by
   rw [restore_snapshot_eq]
   have hsorted : Sorted idxKey (s.tombs.foldl (fun a t => maxMerge kTombstones t.index a)
             (s.kvs.foldl (fun a e => maxMerge kKvs e.modify a)
               (s.sessions.foldl (fun a x => maxMerge kSessions x.modify a) []))) :=
     foldl_maxMerge_sorted _ _ _ (foldl_maxMerge_sorted _ _ _ (foldl_maxMerge_sorted _ _ _ (sorted_nil _)))
   have h4 := insertAll_cover hsorted h.idx (early_index_covered s h)
-  simp only [h4, foldl_overwrite _ _ _ h.idx]
-  rw [lastOverwrite_self _ _ _ h.idx hp, foldl_overwrite _ _ _ h.idx, lastOverwrite_self _ _ _ h.idx hb,
+  simp only [h4]
+  rw [late_noop h.idx h.domP, late_noop h.idx h.domB,
     insertAll_nil h.kvs, insertAll_nil h.tombs, insertAll_nil h.sess, insertAll_nil h.peer,
     insertAll_nil h.bund, ← h.sc]
 
 /-- A state as two peering writes leave it (ids 1 < 2; id 2 written at index 9, id 1 at index 16, so the
-    table index is 16 but the last row in id order has ModifyIndex 9): the harness witness of
-    `snap:index:peering`. -/
+    table index is 16 but the last row in id order has ModifyIndex 9): the harness witness of the repaired
+    finding `snap:index:peering`. -/
 def peeringWitness : State :=
   { State.empty with
     index := [⟨kPeering, 16⟩]
     peerings := [⟨[1], "p1", 16⟩, ⟨[2], "p2", 9⟩] }
 
-/-- **The full-strength round trip is false for the code as it is**: `peeringWitness` is well formed, yet
-    restoring its snapshot moves the "peering" index from 16 back to 9 (`Restore.Peering` overwrites the
-    verbatim index row). -/
-theorem restore_snapshot_counterexample :
-    (restore (snapshot peeringWitness)).index = [⟨kPeering, 9⟩] ∧ restore (snapshot peeringWitness) ≠ peeringWitness := by
+theorem peeringWitness_wf : WF peeringWitness where
+  idx := by decide
+  kvs := by decide
+  tombs := by decide
+  sess := by decide
+  peer := by decide
+  bund := by decide
+  sc := by decide
+  hasS := fun h => absurd rfl h
+  hasK := fun h => absurd rfl h
+  hasT := fun h => absurd rfl h
+  domP := fun _ => ⟨⟨kPeering, 16⟩, by decide, by decide, by decide⟩
+  domB := fun h => absurd rfl h
+
+/-- **The repaired defect, kept as a theorem about the pre-repair restorer**: on the well-formed
+    `peeringWitness`, `Restore.Peering` as it was (plain overwrite of the table index, after IndexRestore)
+    moves the "peering" index from 16 back to 9, so the round trip fails; the current restorer gives the
+    state back. -/
+theorem peering_overwrite_counterexample :
+    (restoreBeforeFix (snapshot peeringWitness)).index = [⟨kPeering, 9⟩] ∧
+    restoreBeforeFix (snapshot peeringWitness) ≠ peeringWitness ∧
+    restore (snapshot peeringWitness) = peeringWitness := by
+  decide
+
+/-- The index-dominance hypothesis is needed (and is about ill-formed states, not about the code): if a
+    peering row claims a ModifyIndex above its table's index, restore raises the table index. -/
+theorem index_dominance_needed :
+    let s : State := { State.empty with index := [⟨kPeering, 3⟩], peerings := [⟨[1], "p", 7⟩] }
+    (restore (snapshot s)).index = [⟨kPeering, 7⟩] := by
   decide
 
 /-- IndexRestore wins: whatever the restorers before it computed, every index row of the snapshot that is
-    not one of the two rows overwritten later comes back verbatim — for ANY state with an ordered index
+    not one of the two rows max-merged later comes back verbatim — for ANY state with an ordered index
     table (no assumption on the other tables). -/
 theorem index_rows_restored_verbatim (s : State) (hi : Sorted idxKey s.index) (r : IdxRow) (hr : r ∈ s.index)
     (h₁ : idxKey r ≠ lc kPeering) (h₂ : idxKey r ≠ lc kBundles) : r ∈ (restore (snapshot s)).index := by
@@ -275,10 +317,8 @@ theorem index_rows_restored_verbatim (s : State) (hi : Sorted idxKey s.index) (r
     foldl_maxMerge_sorted _ _ _ (foldl_maxMerge_sorted _ _ _ (foldl_maxMerge_sorted _ _ _ (sorted_nil _)))
   have h4s := insertAll_sorted (k := idxKey) s.index hsorted
   have h4 := (mem_insertAll s.index hsorted hi r).mpr (Or.inl hr)
-  simp only []
-  rw [foldl_overwrite _ _ _ h4s, foldl_overwrite _ _ _ (lastOverwrite_sorted _ _ _ h4s)]
-  exact mem_lastOverwrite_of_ne _ _ _ (lastOverwrite_sorted _ _ _ h4s)
-    (mem_lastOverwrite_of_ne _ _ _ h4s h4 h₁) h₂
+  exact mem_foldl_maxMerge_of_ne _ _ _ (foldl_maxMerge_sorted _ _ _ h4s)
+    (mem_foldl_maxMerge_of_ne _ _ _ h4s h4 h₁) h₂
 
 /-- The header: `LastIndex` of a snapshot is the maximum over the index rows keyed by a schema table. -/
 theorem header_is_table_max (s : State) : (snapshot s).last = lastIndex s := rfl
@@ -313,27 +353,11 @@ theorem sampleState_wf : WF sampleState where
   hasS := fun _ => by decide
   hasK := fun _ => by decide
   hasT := fun _ => by decide
-
-example : LateAgrees kPeering sampleState.peerings sampleState.index := by
-  intro p hp; simp [sampleState] at hp; subst hp; decide
-example : LateAgrees kBundles sampleState.bundles sampleState.index := by
-  intro p hp; simp [sampleState] at hp; subst hp; decide
+  domP := fun _ => ⟨⟨kPeering, 9⟩, by decide, by decide, by decide⟩
+  domB := fun _ => ⟨⟨kBundles, 11⟩, by decide, by decide, by decide⟩
 
 /-- the theorem's conclusion on the sample, evaluated by the kernel -/
 example : restore (snapshot sampleState) = sampleState := by decide
-
-/-- the counterexample state satisfies every other hypothesis of the round-trip theorem -/
-theorem peeringWitness_wf : WF peeringWitness where
-  idx := by decide
-  kvs := by decide
-  tombs := by decide
-  sess := by decide
-  peer := by decide
-  bund := by decide
-  sc := by decide
-  hasS := fun h => absurd rfl h
-  hasK := fun h => absurd rfl h
-  hasT := fun h => absurd rfl h
 
 /-! ## C. cut points -/
 
@@ -373,14 +397,12 @@ theorem cut_commutes_obs (m : Machine S C Res) (E : S → S → Prop)
     simp only [Machine.run]
     exact ⟨by rw [h2, r1], r2⟩
 
-/-- Instance of the exact form: ANY deterministic machine over the stand-alone state that keeps the
-    round-trip hypotheses invariant commutes with snapshot + restore at every cut. -/
+/-- Instance of the exact form: ANY deterministic machine over the stand-alone state that keeps `WF`
+    invariant commutes with snapshot + restore at every cut of every log. -/
 theorem cut_commutes_instance (m : Machine State C Res) (init : State) (log : List C) (k : Nat)
-    (hinv : ∀ pre, WF (m.run init pre).1 ∧ LateAgrees kPeering (m.run init pre).1.peerings (m.run init pre).1.index ∧
-        LateAgrees kBundles (m.run init pre).1.bundles (m.run init pre).1.index) :
+    (hinv : ∀ pre, WF (m.run init pre).1) :
     m.run (restore (snapshot (m.run init (log.take k)).1)) (log.drop k) = m.run (m.run init (log.take k)).1 (log.drop k) := by
-  have h := hinv (log.take k)
-  rw [restore_snapshot_partial _ h.1 h.2.1 h.2.2]
+  rw [restore_snapshot_instance _ (hinv (log.take k))]
 
 /-- non-vacuity of the cut theorem: a two-command KV machine on the instance (set / delete a key, bumping
     the "kvs" index) cut in the middle of a three-entry log -/
